@@ -172,8 +172,10 @@ Fixpoint skip_ws_m (s : list Z) (pos : nat) : list Z * nat :=
 Definition ti_out : Type := nat * ti_err * Z.
 Definition ti_error (e : ti_err) : res ti_out := Ok (0%nat, e, 0).
 
-Definition to_integer_m (t : ity) (skipws plus : bool) (s : list Z) (base : Z) : res ti_out :=
-  rbind (checker_m t base) (fun ck =>
+(* everything around the digit loop (shared by both instantiations of the overflow checker):
+   [loop rest pos value] returns (pos, value, overflow?) *)
+Definition to_integer_head (t : ity) (skipws plus : bool) (s : list Z) (base : Z)
+    (loop : list Z -> nat -> Z -> res (nat * Z * bool)) : res ti_out :=
   let '(s1, p1) := if skipws then skip_ws_m s 0 else (s, 0%nat) in
   match s1 with
   | [] => ti_error TiInvalid
@@ -191,7 +193,7 @@ Definition to_integer_m (t : ity) (skipws plus : bool) (s : list Z) (base : Z) :
         rbind (abs_m t value0) (fun a =>
         if cast t a >=? base then ti_error TiInvalid
         else
-          rbind (ti_loop t ck base r3 (S p3) value0) (fun lr =>
+          rbind (loop r3 (S p3) value0) (fun lr =>
           match lr with
           | (_, _, true) => ti_error TiOverflow
           | (pos, value, false) =>
@@ -202,7 +204,27 @@ Definition to_integer_m (t : ity) (skipws plus : bool) (s : list Z) (base : Z) :
           end)))
       end
     end
-  end).
+  end.
+
+(* check_overflow = true: signed_/unsigned_overflow_checker, constructed before anything else *)
+Definition to_integer_m (t : ity) (skipws plus : bool) (s : list Z) (base : Z) : res ti_out :=
+  rbind (checker_m t base) (fun ck => to_integer_head t skipws plus s base (ti_loop t ck base)).
+
+(* check_overflow = false: nop_overflow_checker (its constructor does not divide, it never fires);
+   the accumulation wraps for unsigned types and is undefined behaviour (signed overflow) for int and
+   wider signed types when the text is too long *)
+Fixpoint ti_loop_nc (t : ity) (base : Z) (s : list Z) (pos : nat) (value : Z) : res (nat * Z) :=
+  match s with
+  | [] => Ok (pos, value)
+  | c :: r =>
+    let digit := parse_digit_m t c in
+    if digit >=? base then Ok (pos, value)
+    else rbind (accumulate_m t base value digit) (fun v' => ti_loop_nc t base r (S pos) v')
+  end.
+
+Definition to_integer_nc_m (t : ity) (skipws plus : bool) (s : list Z) (base : Z) : res ti_out :=
+  to_integer_head t skipws plus s base
+    (fun r p v => rbind (ti_loop_nc t base r p v) (fun lr => Ok (fst lr, snd lr, false))).
 
 (** * from_chars: (error class, ptr - first, value left in the out parameter) *)
 Inductive fc_class := FcOk | FcInvalid | FcRange.
@@ -240,38 +262,17 @@ Definition has_hex_prefix_m (s : list Z) : bool :=
   | _ => false
   end.
 
-(* to_integer<UInt, {skip_whitespace = false, check_overflow = false, allow_plus_sign = false}>:
-   nop_overflow_checker (its constructor does not divide), the accumulation wraps in the unsigned
-   type.  Only instantiated with unsigned types (no minus branch), only .end is used. *)
-Fixpoint ti_loop_nc (ut : ity) (base : Z) (s : list Z) (pos : nat) (value : Z) : res (nat * Z) :=
-  match s with
-  | [] => Ok (pos, value)
-  | c :: r =>
-    let digit := parse_digit_m ut c in
-    if digit >=? base then Ok (pos, value)
-    else rbind (accumulate_m ut base value digit) (fun v' => ti_loop_nc ut base r (S pos) v')
-  end.
-
-Definition to_integer_nc_m (ut : ity) (s : list Z) (base : Z) : res ti_out :=
-  match s with
-  | [] => ti_error TiInvalid
-  | c :: r =>
-    let digit := parse_digit_m ut c in
-    rbind (abs_m ut digit) (fun a =>
-    if cast ut a >=? base then ti_error TiInvalid
-    else rbind (ti_loop_nc ut base r 1 digit) (fun lr => Ok (fst lr, TiNone, snd lr)))
-  end.
-
 (* from `auto const digits = str.substr(pos)` on: s3 = the text from pos on, p3 = pos *)
 Definition strto_convert_m (t : ity) (negative : bool) (base' : Z) (s3 : list Z) (p3 : nat) : res ti_out :=
   let ut := unsigned_of t in
+  (* to_integer<UInt, checked>, and on overflow to_integer<UInt, unchecked> for the end *)
   rbind (to_integer_m ut false false s3 (cast ut base')) (fun mag =>
   match mag with
   | (_, TiInvalid, _) => ti_error TiInvalid
   | (e, err, m) =>
     let overflow := match err with TiOverflow => true | _ => false end in
     rbind (if overflow
-           then rbind (to_integer_nc_m ut s3 (cast ut base')) (fun r => match r with (e', _, _) => Ok e' end)
+           then rbind (to_integer_nc_m ut false false s3 (cast ut base')) (fun r => match r with (e', _, _) => Ok e' end)
            else Ok e) (fun e' =>
     let endp := (p3 + e')%nat in
     (* static_cast<UInt>(static_cast<UInt>(max) + UInt(negative ? 1 : 0)) *)
